@@ -139,7 +139,7 @@ pub fn k1(dir: &str, thorough: bool, seed: u64) {
     // the character-class facts the lexer theorems assume (`Lex.CharsOK`), checked against Rust's std for every scalar value
     {
         let specials = ['~', '&', '|', '^', '=', '<', '>', '!', '@', '\\', '(', ')', '{', '}', '%', ':', ' '];
-        let letters = ['T', 'r', 'u', 'e', 'F', 'a', 'l', 's', 'X', 'G', 'U', 'W', 'E', 'A', 'i', 'n', 'V', '3', 'x'];
+        let letters = ['T', 'r', 'u', 'e', 'F', 'a', 'l', 's', 'X', 'G', 'U', 'W', 'E', 'A', 'i', 'n', 'V', '3', 'x', 'v'];
         let mut ok = true;
         for u in 0..=0x10FFFFu32 {
             if let Some(c) = char::from_u32(u) {
@@ -149,7 +149,7 @@ pub fn k1(dir: &str, thorough: bool, seed: u64) {
             }
         }
         let ok2 = specials.iter().all(|c| !c.is_alphanumeric() && *c != '_' && (*c == ' ' || !c.is_whitespace())) && ' '.is_whitespace();
-        let ok3 = letters.iter().all(|c| c.is_alphanumeric());
+        let ok3 = letters.iter().all(|c| c.is_alphanumeric()) && ('0'..='9').all(|c| c.is_alphanumeric());
         for pid in ["C05", "C06"] {
             out.oracle(ok, pid, "CharsOK.ws_not_name fails for Rust's character classes", "is_whitespace && is_alphanumeric");
             out.oracle(ok2, pid, "CharsOK.special_* fails for Rust's character classes", "specials");
